@@ -28,11 +28,18 @@ Negative witnesses of the two defects found and repaired:
 * `text_sorted_key_not_transparent` — the candidates were sorted by TEXT (`.byText`), which reorders
   two candidates for one ticket in front of a verifier for which their order matters.
 
+Object level: `hrun_copy_refines` proves that the object-level model with the copying cache
+(`Cache.HSys`, `.copy`: Go's pointers — `*UnverifiedMacaroon`s, the `Caveats` cells of the
+`*VerifiedMacaroon` wrappers, the cache's entries) has exactly the traces of `Cache.Sys`, for every
+history from every parsed initial state; the heap invariant behind it is `Lemmas.Refine.SOK`.  So the
+theorems above are theorems about the object-level model too (`cache_transparent_on_objects`).
+
 Tie: family `cache` (every history is run through `bundle.NewVerificationCache` and directly; the
 driver runs the object-level model and, for `.copy`, also `Cache.Sys`, reporting any difference; the
 `(const transparent)` lines are the implementation's own cached-against-direct verdict).
 -/
 import Macaroon.Lemmas.Bundle
+import Macaroon.Lemmas.Refine
 
 namespace Macaroon.Props.C14
 open Macaroon Macaroon.Bundle Macaroon.Bundle.Cache Macaroon.Lemmas.BundleL
@@ -246,6 +253,62 @@ theorem f7_sharing_not_transparent (P : Params) (pl : Bytes) (s : Str) (m : M) (
    f7_share P pl s m cs items s' m' added hloc hnt hV hatt httl,
    f7_copy P pl s m cs items s' m' added hloc hnt hV hatt httl⟩
 
+/-! ### the object level refines the value level -/
+
+/-- **hrun_copy_refines.**  For every history, parameters and list of headers: the object-level model
+(a heap of `*UnverifiedMacaroon`s and `Caveats` cells, bundles as slices of pointers, cache entries
+pointing to cells) with the repaired, copying cache produces exactly the trace of the value-level
+system — the same output of every step and the same state of EVERY bundle after every step. -/
+theorem hrun_copy_refines (P : Params) (hist : List (Int × Op)) (pl : Bytes) (hdrs : List Str) :
+    hrun .copy P hist (hinit pl hdrs) = run P hist (init pl hdrs) :=
+  Lemmas.Refine.hrun_copy_refines P hist pl hdrs
+
+/-- the heap invariant behind it (`SOK`: every bundle owns its objects — all references point into
+the heap, no object is referenced from two slots; no two bundles share an object; the `Caveats` cell
+of a cache entry is referenced by no bundle): it holds of every parsed initial state, every step keeps
+it, and under it one object-level step IS one value-level step on the denoted system `abs s`
+(the bundles' views, the store with the contents of the cells).  The invariant is what makes the
+`memo` of `tokens.Verify` (results keyed by pointer) irrelevant: no pointer occurs twice. -/
+theorem hstep_refines (P : Params) (pl : Bytes) (hdrs : List Str) :
+    Lemmas.Refine.SOK (hinit pl hdrs) ∧ Lemmas.Refine.abs (hinit pl hdrs) = init pl hdrs ∧
+    ∀ (now : Int) (s : HSys) (op : Op), Lemmas.Refine.SOK s →
+      Lemmas.Refine.abs (hstep .copy P now s op).1 = (step P now (Lemmas.Refine.abs s) op).1 ∧
+      (hstep .copy P now s op).2 = (step P now (Lemmas.Refine.abs s) op).2 ∧
+      Lemmas.Refine.SOK (hstep .copy P now s op).1 :=
+  ⟨Lemmas.Refine.hinit_sok pl hdrs, Lemmas.Refine.hinit_abs pl hdrs, fun now s op ok => Lemmas.Refine.hstep_refines P now s op ok⟩
+
+/-- from ANY object-level state that satisfies the invariant (not only a parsed one) -/
+theorem hrun_refines_from (P : Params) (hist : List (Int × Op)) (s : HSys) (ok : Lemmas.Refine.SOK s) :
+    hrun .copy P hist s = run P hist (Lemmas.Refine.abs s) :=
+  Lemmas.Refine.hrun_refines P hist s ok
+
+/-- **cache_transparent on objects**: the headline theorem, stated about the object-level model -/
+theorem cache_transparent_on_objects (P : Params) (hO : P.order = .byKid) (hV : PerKidFun macOf P.V)
+    (pl : Bytes) (hdrs : List Str) (hist : List (Int × Op)) :
+    hrun .copy P hist (hinit pl hdrs) = hrun .copy P (hist.map fun x => (x.1, x.2.direct)) (hinit pl hdrs) := by
+  rw [hrun_copy_refines, hrun_copy_refines]
+  exact cache_transparent P hO hV pl hdrs hist
+
+/-- **bundles_isolated on objects.**  In an object-level state that satisfies the invariant, a step
+that names bundle `i` (or none) leaves every bundle `j ≠ i` denoting exactly the tokens it denoted:
+neither its slice nor any object it points to is written. -/
+theorem bundles_isolated_on_objects (P : Params) (now : Int) (s : HSys) (op : Op) (j : Nat) (ok : Lemmas.Refine.SOK s)
+    (h : opTarget op ≠ some j) :
+    ((hstep .copy P now s op).1.get j).view (hstep .copy P now s op).1.heap = (s.get j).view s.heap :=
+  Lemmas.Refine.hstep_isolated P now s op j ok h
+
+/-- **F7 at object level: sharing is NOT a refinement.**  The witness state satisfies the invariant (two
+bundles parsed separately share nothing); with the cache as found (`.share`) the object-level run is
+not the value-level run of the denoted system, with the copying cache it is. -/
+theorem f7_share_not_refinement (P : Params) (pl : Bytes) (s : Str) (m : M) (cs : CS) (items : List (AddItem Bytes))
+    (s' : Str) (m' : M) (added : CS)
+    (hloc : m.loc = pl) (hnt : ticketsOf m = []) (hV : P.V (.unverified s m) [] = some cs)
+    (hatt : Bundle.attMac items m = some (s', m', added)) (hne : s' ≠ s) (httl : 1 < P.ttl) :
+    Lemmas.Refine.SOK (f7Init pl s m) ∧
+    hrun .share P (f7History items) (f7Init pl s m) ≠ run P (f7History items) (Lemmas.Refine.abs (f7Init pl s m)) ∧
+    hrun .copy P (f7History items) (f7Init pl s m) = run P (f7History items) (Lemmas.Refine.abs (f7Init pl s m)) :=
+  Lemmas.Refine.f7_share_not_refinement P pl s m cs items s' m' added hloc hnt hV hatt hne httl
+
 /-- the initial state of the witness is what parsing one header twice gives -/
 theorem f7_initial_state (pl : Bytes) (h : Str) (s : Str) (m : M) (hp : parseToks h = [.unverified s m]) (hloc : m.loc = pl) :
     hinit pl [h, h] = f7Init pl s m :=
@@ -352,4 +415,10 @@ end Macaroon.Props.C14
 #print axioms Macaroon.Props.C14.bundles_isolated
 #print axioms Macaroon.Props.C14.f7_sharing_not_transparent
 #print axioms Macaroon.Props.C14.f7_initial_state
+#print axioms Macaroon.Props.C14.hrun_copy_refines
+#print axioms Macaroon.Props.C14.hstep_refines
+#print axioms Macaroon.Props.C14.hrun_refines_from
+#print axioms Macaroon.Props.C14.cache_transparent_on_objects
+#print axioms Macaroon.Props.C14.bundles_isolated_on_objects
+#print axioms Macaroon.Props.C14.f7_share_not_refinement
 #print axioms Macaroon.Props.C14.text_sorted_key_not_transparent
